@@ -329,6 +329,47 @@ def compare_build(ctx, fieldlists, pid):
             ctx.traces_validated += 1
     if builds:
         ctx.sample({"build": rt.fields_arg(builds[0])[:200], "impl": impl[0][:200]})
+    # ---- a caller that goes on after a REFUSED add_field: the message must be exactly what it was before
+    # the refused call (a builder that half-applies a refused field breaks every later encoding)
+    conts = []
+    base = gen_valid_fields(ctx, 60 if not ctx.thorough else 600, 24)
+    for f in base:
+        if not f:
+            continue
+        g = list(f)
+        for _ in range(r.randint(1, 3)):
+            pos = r.randint(1, len(g))
+            lower = [t for t in names if struct.unpack("<I", wire[t])[0] <= struct.unpack("<I", wire[g[pos - 1][0]])[0]]
+            g.insert(pos, (r.choice(lower), rand_value(r, 12)))      # out of order or duplicate: refused
+        conts.append(g)
+    clines = ["buildcont " + rt.fields_arg(f) for f in conts]
+    cimpl = vlib.run_impl(clines)
+    cmodel = vlib.run_model(clines)
+    ctx.evaluations += len(conts)
+    ctx.count("api_builds_continued_after_refusal", len(conts))
+    for f, li, lm in zip(conts, cimpl, cmodel):
+        rep = {"fields": rt.fields_arg(f), "impl": li, "model": lm, "cmd": "buildcont"}
+        # the accepted fields, by the rule of the property (strictly ascending numeric tag order)
+        acc = []
+        for t, v in f:
+            if not acc or struct.unpack("<I", wire[acc[-1][0]])[0] < struct.unpack("<I", wire[t])[0]:
+                acc.append((t, v))
+        if li.startswith(("CRASH", "HARNESS-PANIC")) or "PANIC" in li:
+            ctx.violation("property", "after a refused add_field, building / encoding the message panicked", rep); continue
+        d = dict(tok.split("=", 1) for tok in li.split() if "=" in tok)
+        if pid == "C05":
+            if not (d.get("N") == d.get("T") == d.get("V") == str(len(acc))):
+                ctx.violation("property", "after refused add_field calls the message holds %s fields / %s tags / %s values; %d were accepted" % (d.get("N"), d.get("T"), d.get("V"), len(acc)), rep); continue
+            enc = rt.encode(acc, wire)
+            if ("E=OK %d:%s" % (len(enc), rt.fnv64(enc))) not in li:
+                ctx.violation("property", "after refused add_field calls the encoding is not the canonical encoding of the accepted fields", rep); continue
+            if all(len(v) % 4 == 0 for _, v in acc) and not li.endswith("R=OK " + rt.render_msg(acc)):
+                ctx.violation("property", "after refused add_field calls decode(encode(m)) differs from the accepted fields", rep); continue
+        if li != lm:
+            ctx.violation("tie", "model and implementation disagree on a build continued after a refusal: impl %s / model %s" % (li[:300], lm[:300]), rep)
+        else:
+            ctx.traces_validated += 1
+            ctx.nontriv("buildcont:" + rt.fnv64(li.encode()))
 
 
 def tagsweep(ctx):
